@@ -43,6 +43,9 @@ class Ctx:
         return d
 
     def cleanup(self):
+        if os.environ.get("VERIF_KEEP_SCRATCH"):
+            print("scratch kept: " + self.scratch)
+            return
         shutil.rmtree(self.scratch, ignore_errors=True)
 
     def quick(self):
